@@ -98,8 +98,11 @@ static void case_raw(const args_t *a, long c, rng_t *r0)
 	/* destroy the handlers in a random order: each call must return (the scheduler proves otherwise) */
 	int order[3] = {0, 1, 2};
 	for (int i = nh - 1; i > 0; i--) { int j = rndn(r, i + 1); int t = order[i]; order[i] = order[j]; order[j] = t; }
+	/* teardown order: handlers then pool, or the pool first (it must wait for the jobs still in flight and return) */
+	int pool_first = rndn(r, 3) == 0;
+	if (pool_first) { threadpool_destroy(&pool); STAT("raw.pool_destroyed_before_handlers"); }
 	for (int i = 0; i < nh; i++) result_handler_destroy(&g_h[order[i]].rh);
-	threadpool_destroy(&pool);
+	if (!pool_first) threadpool_destroy(&pool);
 	char scen[120]; snprintf(scen, sizeof scen, "raw pool max=%d handlers=%d jobs=%d dispatchers=%d", maxthr, nh, njobs, ndisp);
 	/* exactly-once, order, limits */
 	for (int i = 0; i < njobs; i++) {
